@@ -1,5 +1,5 @@
 // C13: traversals and metrics.  One case per generated tree:
-//   (case <id> tree <K> (arena <root> (node idx parent (children..) leaf) ..) (metrics ..) (runs (run kind start (script) (obs..)) ..))
+//   (case <id> tree <K> (gen <removed nodes> <insertions that reused a freed index>) (arena <root> (node idx parent (children..) leaf) ..) (metrics ..) (runs (run kind start (script) (obs..)) ..))
 //   (case <id> poly 2 (arena ..) (runs (run poly <root> (script) (obs..)) ..))
 // obs: first (i lb ub) = size_hint() right after new(), then after every command (the returned item with all fields,
 // then size_hint()):
@@ -40,24 +40,32 @@ fn sx_arena<N, const K: usize>(t: &Tree<N, K>) -> String {
     s
 }
 
-/// random tree: grow, remove some subtrees, grow again (indices get reused, holes remain)
-fn gen_arena<const K: usize>(r: &mut Rng) -> Tree<u32, K> {
+/// random tree: grow, remove some subtrees, grow again (indices get reused, holes remain);
+/// returns the tree, the number of removed nodes and the number of insertions that reused a freed index
+fn gen_arena<const K: usize>(r: &mut Rng) -> (Tree<u32, K>, usize, usize) {
     let mut t = Tree::<u32, K>::new();
     t.add_root(0);
     let target = 1 + r.below(9);
-    let grow = |t: &mut Tree<u32, K>, r: &mut Rng, steps: usize| {
+    let mut freed: Vec<TreeIndex> = Vec::new();
+    let mut reused = 0usize;
+    let mut removed = 0usize;
+    let mut grow = |t: &mut Tree<u32, K>, r: &mut Rng, steps: usize, freed: &mut Vec<TreeIndex>| {
         for _ in 0..steps {
             let nodes: Vec<TreeIndex> = t.node_indices().collect();
             let p = nodes[r.below(nodes.len())];
             let label = r.below(K);
             if t.tree_node(p).unwrap().children[label].is_none() {
-                t.add_child_node(p, label, r.below(100) as u32).unwrap();
+                let k = t.add_child_node(p, label, r.below(100) as u32).unwrap();
+                if let Some(pos) = freed.iter().position(|&f| f == k) {
+                    freed.swap_remove(pos);
+                    reused += 1;
+                }
             }
         }
     };
     let steps = target + r.below(4);
-    grow(&mut t, r, steps);
-    let rounds = r.below(3);
+    grow(&mut t, r, steps, &mut freed);
+    let rounds = r.below(4);
     for _ in 0..rounds {
         // remove one or two subtrees
         for _ in 0..(1 + r.below(2)) {
@@ -65,15 +73,22 @@ fn gen_arena<const K: usize>(r: &mut Rng) -> Tree<u32, K> {
             let p = nodes[r.below(nodes.len())];
             let label = r.below(K);
             if t.tree_node(p).unwrap().children[label].is_some() {
+                let before: Vec<TreeIndex> = t.node_indices().collect();
                 t.remove_child(p, label);
+                for i in before {
+                    if !t.contains(i) {
+                        freed.push(i);
+                        removed += 1;
+                    }
+                }
             }
         }
         if r.chance(2, 3) {
             let steps = 1 + r.below(4);
-            grow(&mut t, r, steps);
+            grow(&mut t, r, steps, &mut freed);
         }
     }
-    t
+    (t, removed, reused)
 }
 
 #[derive(Clone, Copy, PartialEq)]
@@ -267,13 +282,13 @@ fn sx_metrics<N, const K: usize>(t: &Tree<N, K>) -> String {
 }
 
 fn tree_case<const K: usize>(r: &mut Rng, id: usize, out: &mut String) {
-    let t: Tree<u32, K> = gen_arena(r);
-    emit_tree_case(&t, r, &id.to_string(), false, out);
+    let (t, removed, reused) = gen_arena::<K>(r);
+    emit_tree_case(&t, r, &id.to_string(), false, (removed, reused), out);
 }
 
-fn emit_tree_case<const K: usize>(t: &Tree<u32, K>, r: &mut Rng, id: &str, all_full: bool, out: &mut String) {
+fn emit_tree_case<const K: usize>(t: &Tree<u32, K>, r: &mut Rng, id: &str, all_full: bool, hist: (usize, usize), out: &mut String) {
     let t = t;
-    write!(out, "(case {} tree {} {} {} (runs", id, K, sx_arena(t), sx_metrics(t)).unwrap();
+    write!(out, "(case {} tree {} (gen {} {}) {} {} (runs", id, K, hist.0, hist.1, sx_arena(t), sx_metrics(t)).unwrap();
     let nodes: Vec<TreeIndex> = t.node_indices().collect();
     for &start in &nodes {
         let m = catch(AssertUnwindSafe(|| t.num_nodes(start))).unwrap_or(3);
@@ -332,13 +347,13 @@ fn fixed_cases(r: &mut Rng, out: &mut String) {
     let l2 = t.add_child_node(l0, 1, 17).unwrap();
     let _ = t.add_child_node(l2, 0, 18).unwrap();
     let _ = t.add_child_node(l2, 1, 19).unwrap();
-    emit_tree_case(&t, r, "w0", true, out);
+    emit_tree_case(&t, r, "w0", true, (0, 0), out);
     // w1: a root with two leaves
     let mut t = Tree::<u32, 2>::new();
     let z = t.add_root(0);
     t.add_child_node(z, 0, 1).unwrap();
     t.add_child_node(z, 1, 2).unwrap();
-    emit_tree_case(&t, r, "w1", true, out);
+    emit_tree_case(&t, r, "w1", true, (0, 0), out);
     // w2: K = 3, missing children, a removed subtree whose indices are used again in another place
     let mut t = Tree::<u32, 3>::new();
     let z = t.add_root(0);
@@ -352,18 +367,18 @@ fn fixed_cases(r: &mut Rng, out: &mut String) {
     t.add_child_node(d, 2, 7).unwrap();
     t.add_child_node(a, 0, 8).unwrap();
     t.add_child_node(b, 2, 9).unwrap();
-    emit_tree_case(&t, r, "w2", true, out);
+    emit_tree_case(&t, r, "w2", true, (3, 3), out);
     // w3: a single node
     let mut t = Tree::<u32, 2>::new();
     t.add_root(0);
-    emit_tree_case(&t, r, "w3", true, out);
+    emit_tree_case(&t, r, "w3", true, (0, 0), out);
     // w4: a chain
     let mut t = Tree::<u32, 2>::new();
     let mut cur = t.add_root(0);
     for i in 0..4 {
         cur = t.add_child_node(cur, (i % 2) as usize, i as u32).unwrap();
     }
-    emit_tree_case(&t, r, "w4", true, out);
+    emit_tree_case(&t, r, "w4", true, (0, 0), out);
 }
 
 fn main() {
